@@ -219,6 +219,10 @@ func (g *rowGen) fill(v reflect.Value, tag, path string, row, depth int, top boo
 		if opt && v.IsZero() {
 			g.forceNonZero(v)
 		}
+		// -0.0 equals the zero value: in an optional non-pointer float field it stands for null like +0.0
+		if opt && (t.Kind() == reflect.Float32 || t.Kind() == reflect.Float64) && r.P(4) {
+			v.SetFloat(math.Copysign(0, -1))
+		}
 	}
 }
 
@@ -461,6 +465,9 @@ func eqNorm(a, b reflect.Value, path string) (bool, string) {
 		for i := 0; i < t.NumField(); i++ {
 			if !t.Field(i).IsExported() || t.Field(i).Tag.Get("parquet") == "-" {
 				continue
+			}
+			if k := t.Field(i).Type.Kind(); (k == reflect.Float32 || k == reflect.Float64) && hasOpt(t.Field(i).Tag.Get("parquet"), "optional") && a.Field(i).Float() == 0 && b.Field(i).Float() == 0 {
+				continue // both zeros of an optional non-pointer float are the null
 			}
 			if ok, p := eqNorm(a.Field(i), b.Field(i), path+"."+t.Field(i).Name); !ok {
 				return false, p
